@@ -2,9 +2,12 @@
 
 Clause (c) CRC primitives = bit-serial definitions (spec/Crc.tla evaluated by TLC) for short buffers at every alignment.
 Clause (a) every metadata object written by the tools carries the format's checksum: conjunct Csums of Ext4Abs.Consistent
-           on images produced by mke2fs/debugfs/tune2fs/resize2fs/e2fsck (independent reader recomputes).
+           on images produced by mke2fs/debugfs/tune2fs/resize2fs/e2fsck (independent reader recomputes).  The universe of
+           images (geometry catalogue, pre-states holding every object shape an operation's changed checksum inputs reach)
+           and of tool-written journals is stated by spec/CsumUniverse.tla and enumerated by TLC; journals are decoded by
+           the independent jbd2 decoder (gen/jbd2write.py, gen/c14_journal.py) and decided by TLC (Trace_CsumUniverse).
 Clause (b) flipping a covered byte of a live metadata object is detected by e2fsck -fn and by the library
-           (fault enumeration guided by the reader's location map and CsumCoverage)."""
+           (fault enumeration guided by the reader's location map and CsumCoverage), on every descriptor / inode size."""
 import os, sys, json, random, shutil, subprocess
 from common import VERIF, fast_tmp, seed, die_broken, NPROC, tool_env
 from common import run as sh
@@ -76,16 +79,27 @@ def run(tier):
         ev.cov["traces_validated_against_impl"] = n_c - bad_c
         ev.cov["explanation"] = ("(c) CRC results of the real library on buffers of length 0..%d at alignments 0..7 (4 content patterns, 3 algorithms, varied seeds) are compared by TLC "
                                  "with the bit-serial definitions in spec/Crc.tla; longer buffers are NOT decided by the specification (TLC cannot fold kilobytes). "
-                                 "(a)/(b): see clauses_a_b." % ev.cov["crc_max_len"])
+                                 "(a) Ext4Abs!Csums (TLC) on the independent reader's projection of every image of the universe CsumUniverse.tla states "
+                                 "(TLC-enumerated: base profiles x operations, geometry catalogue desc size 32/64/128 x inode size 128/256/512 x crc16/crc32c x flex_bg "
+                                 "on populated pre-states, mandatory elements in every run, census of required witnesses decided by TLC), and CsumUniverse!JournalOK (TLC) on "
+                                 "the independent decode of every journal the tools wrote for the mandatory + sampled scenarios (debugfs jo/jw/jc with escaped blocks, "
+                                 "full / overflowing descriptor and revoke blocks, csum v1/v2/v3, 32/64-bit tags, recovery by e2fsck and debugfs jr). "
+                                 "(b) see clauses_a_b and b_*." % ev.cov["crc_max_len"])
         ev.cov["rule"] = "one evaluation = one (algorithm, seed, length, alignment, pattern) CRC input; all are non-trivial; distinct by input"
-        ev.assumptions = ["CRC reference limited to short buffers (<= 64 bytes); the slice-by-8 main loop on long buffers is exercised only through clause (a) against the reader's own python CRC"]
+        ev.assumptions = ["CRC reference limited to short buffers (<= 64 bytes); the slice-by-8 main loop on long buffers is exercised only through clause (a) against the reader's own python CRC",
+                          "debugfs journal writer: one jw per jo .. jc session (what every in-tree user does; the writer guesses the end of a transaction, a second jw in the same session may overwrite the first commit block -- not a checksum matter)",
+                          "journals: internal journal inode only; block numbers below 2^32 (t_blocknr_high is 0 on the small images)",
+                          "tune2fs is run with -f (no prompt); on the MMP image that also skips MMP (known finding a|mmp|tune_U while unrepaired)"]
         return vd.finish()
     finally:
         shutil.rmtree(work, ignore_errors=True)
 
 
 def replay(path):
-    d = json.load(open(path))["replay"]["line"]
+    rp = json.load(open(path))["replay"]
+    if "line" not in rp:
+        return replay_ab(path, rp)
+    d = rp["line"]
     work = fast_tmp()
     try:
         b = build.build(); drv = build.driver(b, "crcdrv")
@@ -95,6 +109,22 @@ def replay(path):
         res = tracecheck.validate_lines(out, os.path.join(SPEC, "Trace_Crc.tla"), os.path.join(SPEC, "Trace_Crc.cfg"), work)
         print(out[0])
         if res["bad"] or res["broken"]:
+            print("VIOLATION property=%s replay=%s" % (PID, path)); return 1
+        print("replay accepted"); return 0
+    finally:
+        shutil.rmtree(work, ignore_errors=True)
+
+
+def replay_ab(path, rp):
+    """replays of clauses (a) / (b): the saved universe element is run again through the same code path (known findings are
+    NOT filtered here: a replay of a known finding prints VIOLATION as long as the defect is there)"""
+    import c14_ab
+    work = fast_tmp()
+    try:
+        b = build.build()
+        r = c14_ab.replay_one(b, rp, work)
+        print(json.dumps(r)[:1500])
+        if r.get("violated"):
             print("VIOLATION property=%s replay=%s" % (PID, path)); return 1
         print("replay accepted"); return 0
     finally:
